@@ -3,7 +3,7 @@
    classes" (a statement about the rules of poker only). *)
 From Coq Require Import Sorting.Permutation.
 From CKC Require Import Base.Prelude Base.Reflect Base.SortN Spec.Layout Spec.Poker.
-From CKC Require Import Proofs.CardFacts Proofs.SortFacts Proofs.BitFacts Proofs.FiveFacts Proofs.PokerFacts
+From CKC Require Import Proofs.CardBase Proofs.SortFacts Proofs.BitFacts Proofs.FiveFacts Proofs.PokerFacts
   Proofs.RankedFacts Proofs.ShapeFacts.
 From CKC Require Export Model.Search.
 Open Scope N_scope.
